@@ -6,7 +6,7 @@ namespace G3D
 open V3
 
 /-- result of a first intersection fed into a second one (`None` absorbs) -/
-def interOpt (o : Option Geo) (c : Geo) : Res :=
+def interOptL (o : Option Geo) (c : Geo) : Res :=
   match o with
   | none => .ok none
   | some g => interFlat g c
@@ -19,11 +19,11 @@ def interOptR (a : Geo) (o : Option Geo) : Res :=
 /-- associativity on the denoted sets, for all 125 type triples of flat primitives -/
 theorem interFlat_assoc (a b c : Geo) (ha : a.WF) (hb : b.WF) (hc : c.WF) :
     ∃ ab bc l r, interFlat a b = .ok ab ∧ interFlat b c = .ok bc ∧
-      interOpt ab c = .ok l ∧ interOptR a bc = .ok r ∧
+      interOptL ab c = .ok l ∧ interOptR a bc = .ok r ∧
       ∀ x, denOpt l x ↔ denOpt r x := by
   obtain ⟨ab, hab, wab, dab⟩ := interFlat_exact a b ha hb
   obtain ⟨bc, hbc, wbc, dbc⟩ := interFlat_exact b c hb hc
-  have hl : ∃ l, interOpt ab c = .ok l ∧ ∀ x, denOpt l x ↔ (a.den x ∧ b.den x) ∧ c.den x := by
+  have hl : ∃ l, interOptL ab c = .ok l ∧ ∀ x, denOpt l x ↔ (a.den x ∧ b.den x) ∧ c.den x := by
     cases ab with
     | none => exact ⟨none, rfl, fun x => by simp only [denOpt, false_iff]; rintro ⟨h, _⟩; exact (dab x).mpr h⟩
     | some g =>
